@@ -204,24 +204,45 @@ def install(pids):
         import gcmpy.tools.draw_set as ds
         DS = ds.DrawSet
 
-        def check(self):
+        # model-based, representation-independent: every DrawSet carries a shadow builtin set maintained by the wrappers; what is compared
+        # is the public interface (len always, iteration and membership every 257th operation), never the object's private containers
+        def shadow_of(self):
+            sh = self.__dict__.get("_vmon_shadow")
+            if sh is None:
+                sh = self.__dict__["_vmon_shadow"] = set(iter(self))
+            return sh
+
+        def check(self, sh):
             C["drawset_invariant_evals"] += 1
-            ed, hm = getattr(self, "_edges", None), getattr(self, "_edge_hashmap", None)
-            if ed is None or hm is None:
-                return
-            bad = len(ed) != len(hm)
-            if not bad and C["drawset_invariant_evals"] % 257 == 0:
-                bad = any(hm.get(e) != i for i, e in enumerate(ed))
-            if bad:
-                alarm("C20", "structural-invariant-broken", len_list=len(ed), len_index=len(hm))
-        for name in ("add", "remove"):
-            def make(orig):
-                def wrapper(self, e):
-                    r = orig(self, e)
-                    check(self)
-                    return r
-                return wrapper
-            _wrap(DS, name, make)
+            if len(self) != len(sh):
+                alarm("C20", "len-differs-from-model", got=len(self), model=len(sh))
+            elif C["drawset_invariant_evals"] % 257 == 0:
+                items = list(self)
+                if len(items) != len(sh) or set(items) != sh or any(e not in self for e in sh):
+                    alarm("C20", "iteration-or-membership-differs-from-model", n=len(items), model=len(sh))
+
+        def make_add(orig):
+            def wrapper(self, e):
+                sh = shadow_of(self)
+                r = orig(self, e)
+                sh.add(e)
+                check(self, sh)
+                return r
+            return wrapper
+        _wrap(DS, "add", make_add)
+
+        def make_remove(orig):
+            def wrapper(self, e):
+                sh = shadow_of(self)
+                present = e in sh
+                r = orig(self, e)          # raises for an absent element: nothing to update then
+                if not present:
+                    alarm("C20", "remove-absent-did-not-raise", element=repr(e))
+                sh.discard(e)
+                check(self, sh)
+                return r
+            return wrapper
+        _wrap(DS, "remove", make_remove)
 
         def make_draw(orig):
             def wrapper(self):
